@@ -1,11 +1,125 @@
-"""Kani harness runner (complete loop-free harnesses and bounded stand-ins)."""
+"""Kani harness runner (complete loop-free harnesses and bounded stand-ins).
+
+A harness result is one of
+  ok         VERIFICATION:- SUCCESSFUL
+  failed     a user assertion / panic / overflow check failed (a refutation; CBMC is exact on loop-free code)
+  undecided  timeout, out of memory, unwinding assertion, unsupported construct, build error
+A timeout or a tool limit is never a verdict.
+"""
+import os
+import re
+import subprocess
+import time
+
 from .verus_run import Failure
 
+TARGET = "out/target-kani"
 
-def run_for(root, repo, pid, P, tier):
-    return []
+
+def run_cargo_kani(root, crate_dir, harnesses, extra_args=(), timeout=1800, jobs=8, env_extra=None, package=None):
+    env = dict(os.environ, CARGO_NET_OFFLINE="true", CARGO_TARGET_DIR=os.path.join(root, TARGET))
+    if env_extra:
+        env.update(env_extra)
+    cmd = ["cargo", "kani", "-j", str(jobs), "--output-format", "terse"] + list(extra_args)
+    if package:
+        cmd += ["-p", package]
+    for h in harnesses:
+        cmd += ["--harness", h]
+    t0 = time.time()
+    try:
+        p = subprocess.run(cmd, cwd=crate_dir, env=env, capture_output=True, text=True, timeout=timeout)
+        out, rc, timed_out = p.stdout + "\n" + p.stderr, p.returncode, False
+    except subprocess.TimeoutExpired as e:
+        so = e.stdout.decode(errors="replace") if isinstance(e.stdout, bytes) else (e.stdout or "")
+        se = e.stderr.decode(errors="replace") if isinstance(e.stderr, bytes) else (e.stderr or "")
+        out, rc, timed_out = so + "\n" + se, -9, True
+        subprocess.run(["pkill", "-f", "cbmc"], capture_output=True)
+    wall = time.time() - t0
+    res = parse_kani_output(out, harnesses)
+    for h in harnesses:
+        r = res.setdefault(h, dict(status="undecided", reason="no result reported (%s)" % ("timeout after %ds" % timeout if timed_out else "exit %s" % rc), output=out[-3000:]))
+        r["harness"] = h
+        r["cmd"] = "(cd %s && CARGO_NET_OFFLINE=true %s)" % (crate_dir, " ".join(cmd))
+        r.setdefault("wall_s", wall)
+    return res, out, wall
+
+
+def parse_kani_output(out, harnesses):
+    """Handles both the sequential and the `-j` (Thread N:) output formats."""
+    res = {}
+    cur = {}       # thread -> harness
+    blocks = {}    # harness -> text
+    for line in out.split("\n"):
+        m = re.match(r"^(?:Thread (\d+): )?Checking harness (\S+?)\.\.\.", line)
+        if m:
+            th = m.group(1) or "0"
+            cur[th] = m.group(2)
+            blocks.setdefault(m.group(2), "")
+            continue
+        m = re.match(r"^Thread (\d+):\s*$", line)
+        if m:
+            cur["_active"] = m.group(1)
+            continue
+        th = cur.get("_active", "0")
+        h = cur.get(th)
+        if h:
+            blocks[h] += line + "\n"
+    for full, text in blocks.items():
+        short = full.split("::")[-1]
+        key = full if full in harnesses else short
+        r = dict(output=text[-3000:])
+        m = re.search(r"Verification Time: ([0-9.]+)s", text)
+        if m:
+            r["wall_s"] = float(m.group(1))
+        m = re.search(r"\*\* (\d+) of (\d+) failed", text)
+        if m:
+            r["checks"] = int(m.group(2))
+            r["checks_failed"] = int(m.group(1))
+        if "VERIFICATION:- SUCCESSFUL" in text:
+            r["status"] = "ok"
+        elif "VERIFICATION:- FAILED" in text:
+            failed = re.findall(r"Failed Checks: (.*)", text)
+            tool = [f for f in failed if re.search(r"unwinding assertion|not supported|unsupported|is not currently supported", f)]
+            real = [f for f in failed if f not in tool]
+            if real:
+                r["status"] = "failed"
+                r["reason"] = "; ".join(real[:5])
+            else:
+                r["status"] = "undecided"
+                r["reason"] = "only tool-limit checks failed: " + "; ".join(tool[:3]) if tool else "FAILED without a failed check listed"
+        else:
+            continue
+        res[key] = r
+    return res
 
 
 def as_failure(kr, pid):
     return Failure(kr["harness"], "kani", kr["harness"], (pid,), kr.get("reason", "kani harness failed"),
                    kr.get("where", ""), "kani::%s" % kr["harness"], kr.get("output", "")[-3000:])
+
+
+# ------------------------------------------------------------------ per property
+def run_for(root, repo, pid, P, tier):
+    results = []
+    for group in P.get("kani", []):
+        results += GROUPS[group](root, repo, pid, P, tier)
+    return results
+
+
+def group_unicode(root, repo, pid, P, tier):
+    from . import gen_unicode
+    try:
+        d, harnesses, info = gen_unicode.generate(root, repo)
+    except gen_unicode.GenError as e:
+        return [dict(harness="unicode/*", status="undecided", reason=str(e), complete=True)]
+    sel = [h for h in harnesses if tier == "thorough" or h["tier"] == "quick"]
+    res, out, wall = run_cargo_kani(root, d, [h["name"] for h in sel], timeout=3000 if tier == "thorough" else 900, jobs=10)
+    final = []
+    for h in sel:
+        r = res[h["name"]]
+        r.update(complete=h["complete"], what=h["what"], bound=h.get("bound", "none (loop-free harness over the full `char` domain)"))
+        final.append(r)
+    return final
+
+
+GROUPS = {"unicode": group_unicode}
